@@ -119,6 +119,11 @@ Proof.
 Qed.
 Print Assumptions C04_reducers_are_the_source's.
 
+(* ... and the initial value of the accumulators per kind of operation is the one the model's build_target encodes *)
+Theorem C04_initial_values_are_the_source's : Gen.TablesGen.gen_build_target_rule = build_target_rule.
+Proof. exact tie_build_target_rule. Qed.
+Print Assumptions C04_initial_values_are_the_source's.
+
 (* Non-vacuity: a concrete non-trivial input meets the hypotheses, and the model computes on it. *)
 Example C04_example :
   let gk := [0; 1; -1; 1; 0] in
